@@ -316,12 +316,15 @@ def run_diff(rec, sh, tier, seed):
     """history independence without trusting the fingerprint: last call's RESULT on the shared model == on a fresh copy."""
     events = api_events(seed)
     pristine = Shared(seed)
-    red = alphabet(events, seed, reduced=True)
-    full = alphabet(events, seed)
-    lasts = [e for e in full if e[1] is None and not e[0].startswith("INVALID")]          # fault-free calls whose results are compared
+    # reference results first, in a process in which no other call has been made yet (state kept by the LIBRARY between calls - e.g. a
+    # module-level table - would otherwise already be in place when the reference is taken)
+    lasts = [(name, None, None) for name in events if not name.startswith("INVALID")]     # fault-free calls whose results are compared
+    lasts.sort(key=lambda e: e[0] != "dls_plain")      # the call that configures nothing itself comes first after every history
     fresh = {}
     for ev in lasts:
         fresh[ev] = run_event(copy.deepcopy(pristine), events, ev)[:2]
+    red = alphabet(events, seed, reduced=True)
+    full = alphabet(events, seed)
     firsts = red if tier == "quick" else full
     hists = [[a] for a in firsts]
     if tier != "quick":
